@@ -663,6 +663,76 @@ func joinOfBroadcastAndNotEqual(b *ssa.BasicBlock, bcasts []ssa.CallInstruction,
 	return false
 }
 
+// gateElemFields: a call on an element of a local array/slice that was filled with gate fields of struct T
+// (for _, g := range [...]Gate{s.a, s.b} { g.M() }, or a variadic helper's loop over its arguments) reaches every
+// field stored in it, provided the loop is entered on every path. It returns those fields and the loop header.
+func gateElemFields(call ssa.CallInstruction, T string) (fields []string, header *ssa.BasicBlock) {
+	cc := call.Common()
+	if !cc.IsInvoke() {
+		return nil, nil
+	}
+	var base ssa.Value
+	switch x := cc.Value.(type) {
+	case *ssa.UnOp: // element of an array variable or slice: *(&arr[i])
+		ia, ok := x.X.(*ssa.IndexAddr)
+		if x.Op != token.MUL || !ok {
+			return nil, nil
+		}
+		if _, constIdx := ia.Index.(*ssa.Const); constIdx {
+			return nil, nil
+		}
+		base = ia.X
+	case *ssa.Index: // element of an array value (range over an array copies it): (*arr)[i]
+		if _, constIdx := x.Index.(*ssa.Const); constIdx {
+			return nil, nil
+		}
+		ld, ok := x.X.(*ssa.UnOp)
+		if !ok || ld.Op != token.MUL {
+			return nil, nil
+		}
+		base = ld.X
+	default:
+		return nil, nil
+	}
+	if sl, isSlice := base.(*ssa.Slice); isSlice {
+		if sl.Low != nil || sl.High != nil || sl.Max != nil {
+			return nil, nil // a part of the collection only
+		}
+		base = sl.X
+	}
+	arr, ok := base.(*ssa.Alloc)
+	if !ok {
+		return nil, nil
+	}
+	for _, r := range *arr.Referrers() {
+		ea, ok := r.(*ssa.IndexAddr)
+		if !ok {
+			continue
+		}
+		if _, constIdx := ea.Index.(*ssa.Const); !constIdx {
+			continue
+		}
+		for _, r2 := range *ea.Referrers() {
+			if st, ok := r2.(*ssa.Store); ok && st.Addr == ssa.Value(ea) {
+				if fr, ok := an.AsField(st.Val); ok && fr.Struct == T {
+					fields = append(fields, fr.Field)
+				} else {
+					return nil, nil // something else than a gate field is in the collection
+				}
+			}
+		}
+	}
+	// the loop header: the nearest dominator of the call's block that is a target of a back edge
+	for b := call.Block(); b != nil; b = b.Idom() {
+		for _, p := range b.Preds {
+			if b.Dominates(p) {
+				return fields, b
+			}
+		}
+	}
+	return nil, nil
+}
+
 // checkFlow checks fan-out completeness and arrival/await pairing of a flow struct.
 func checkFlow(c *report.Ctx, typ string, fanout []string, gateMethod map[string]string, pairs [][]string) {
 	fields := structFields(c, "L/core", typ)
@@ -689,71 +759,7 @@ func checkFlow(c *report.Ctx, typ string, fanout []string, gateMethod map[string
 		}
 		return ""
 	}
-	// a call on an element of a local array/slice that was filled with gate fields (for _, g := range [...]Gate{s.a, s.b} { g.M() })
-	// reaches every field stored in it, provided the loop is entered on every path
-	elemFields := func(call ssa.CallInstruction) (fields []string, header *ssa.BasicBlock) {
-		cc := call.Common()
-		if !cc.IsInvoke() {
-			return nil, nil
-		}
-		var base ssa.Value
-		switch x := cc.Value.(type) {
-		case *ssa.UnOp: // element of an array variable or slice: *(&arr[i])
-			ia, ok := x.X.(*ssa.IndexAddr)
-			if x.Op != token.MUL || !ok {
-				return nil, nil
-			}
-			if _, constIdx := ia.Index.(*ssa.Const); constIdx {
-				return nil, nil
-			}
-			base = ia.X
-		case *ssa.Index: // element of an array value (range over an array copies it): (*arr)[i]
-			if _, constIdx := x.Index.(*ssa.Const); constIdx {
-				return nil, nil
-			}
-			ld, ok := x.X.(*ssa.UnOp)
-			if !ok || ld.Op != token.MUL {
-				return nil, nil
-			}
-			base = ld.X
-		default:
-			return nil, nil
-		}
-		if sl, isSlice := base.(*ssa.Slice); isSlice {
-			base = sl.X
-		}
-		arr, ok := base.(*ssa.Alloc)
-		if !ok {
-			return nil, nil
-		}
-		for _, r := range *arr.Referrers() {
-			ea, ok := r.(*ssa.IndexAddr)
-			if !ok {
-				continue
-			}
-			if _, constIdx := ea.Index.(*ssa.Const); !constIdx {
-				continue
-			}
-			for _, r2 := range *ea.Referrers() {
-				if st, ok := r2.(*ssa.Store); ok && st.Addr == ssa.Value(ea) {
-					if fr, ok := an.AsField(st.Val); ok && fr.Struct == T {
-						fields = append(fields, fr.Field)
-					} else {
-						return nil, nil // something else than a gate field is in the collection
-					}
-				}
-			}
-		}
-		// the loop header: the nearest dominator of the call's block that is a target of a back edge
-		for b := call.Block(); b != nil; b = b.Idom() {
-			for _, p := range b.Preds {
-				if b.Dominates(p) {
-					return fields, b
-				}
-			}
-		}
-		return nil, nil
-	}
+	elemFields := func(call ssa.CallInstruction) ([]string, *ssa.BasicBlock) { return gateElemFields(call, T) }
 	for _, mname := range fanout {
 		m := fn(c, "L/core", "(*"+typ+")."+mname)
 		if m == nil {
